@@ -120,6 +120,11 @@ def gen_doc(rng):
             metas.append(E('meta', {'content': 'en'}))
         if rng.random() < .3:
             metas.insert(0, E('meta', {'charset': 'utf-8'}))
+        if rng.random() < .35:
+            # other <meta> elements that carry a content attribute, before and after the pragma
+            metas.insert(rng.randrange(len(metas) + 1), E('meta', {'name': 'viewport', 'content': rng.choice(['width=1', 'fr', 'late'])}))
+        if rng.random() < .15:
+            metas.append(E('meta', {'content': 'zz', 'name': 'x'}))
         if rng.random() < .2:
             metas.insert(0, E('title', {}, [T('text', 't')]))
         h.kids = metas
